@@ -57,8 +57,13 @@ AKB_EXPORT void* akp_unknowntype_new(TYPE_PARAMS) {
   AKP_TRY return share_type(std::make_shared<ak::UnknownType>(TYPE_PARAMS_ARGS)); AKP_CATCH(nullptr)
 }
 
+// b may be NULL (None is accepted for a std::shared_ptr<Type> argument)
 AKB_EXPORT int akp_type_equal(void* a, void* b, int check_parameters) {
-  AKP_TRY return TYPE(a)->equal(TYPE(b), check_parameters != 0) ? 1 : 0; AKP_CATCH(-1)
+  AKP_TRY
+  ak::TypePtr other(nullptr);
+  if (b != nullptr) other = TYPE(b);
+  return TYPE(a)->equal(other, check_parameters != 0) ? 1 : 0;
+  AKP_CATCH(-1)
 }
 AKB_EXPORT const char* akp_type_tostring(void* h) { AKP_TRY akb_str = TYPE(h)->tostring(); return akb_str.c_str(); AKP_CATCH(nullptr) }
 AKB_EXPORT int akp_type_parameters(void* h) { AKP_TRY akp_put_params(TYPE(h)->parameters()); return 0; AKP_CATCH(-1) }
